@@ -210,6 +210,74 @@ pub fn many_cases(tier: Tier) -> Vec<ManyCase> {
     v
 }
 
+// --- platform level: the attachment lists themselves are visible -----------------------------------
+
+/// One send through the platform API (what the typed layer sits on): the receiver must obtain
+/// exactly the bytes, exactly `nch` channels and exactly `nshm` regions - a surplus descriptor (for
+/// instance the dedicated fragment receiver of a retry that ended up unfragmented) is invisible
+/// to a typed receiver, which closes what the type does not reference, but it is not "exactly the
+/// message".
+#[derive(Clone, Debug, Serialize, Deserialize)]
+pub struct PlatCase {
+    pub mask: u64,
+    pub len: usize,
+    pub nch: usize,
+    pub nshm: usize,
+    pub fake_sndbuf: Option<usize>,
+}
+
+pub fn plat_body(c: &PlatCase) -> Result<(), String> {
+    use ipc_channel::platform::{self, OsIpcChannel, OsIpcSharedMemory};
+    let (tx, rx) = platform::channel().map_err(|e| format!("{:?}", e))?;
+    let data = pattern(c.len, c.mask + 5);
+    let mut chans = Vec::new();
+    let mut keep = Vec::new();
+    for _ in 0..c.nch {
+        let (t, r) = platform::channel().map_err(|e| format!("{:?}", e))?;
+        chans.push(OsIpcChannel::Sender(t));
+        keep.push(r);
+    }
+    let shms: Vec<OsIpcSharedMemory> = (0..c.nshm).map(|i| OsIpcSharedMemory::from_bytes(&[i as u8 + 3; 200])).collect();
+    let want = data.clone();
+    let reader = std::thread::spawn(move || rx.recv().map(|(d, ch, sh)| (d, ch.len(), sh.len())).map_err(|e| format!("{:?}", e)));
+    interpose::arm();
+    let r = tx.send(&data, chans, shms);
+    let (attempts, _) = interpose::disarm();
+    obs(format!("send={} attempts={}", if r.is_ok() { "ok" } else { "err" }, attempts));
+    if r.is_err() {
+        return Ok(());
+    }
+    let (d, nch, nshm) = reader.join().map_err(|_| "reader panicked".to_string())?.map_err(|e| format!("send returned Ok but the receiver got an error: {}", e))?;
+    if d != want {
+        return Err(format!("send returned Ok for {} bytes but {} arrived or they differ", want.len(), d.len()));
+    }
+    if nch != c.nch || nshm != c.nshm {
+        return Err(format!("send returned Ok for a message with {} channels and {} regions, the receiver obtained {} channels and {} regions", c.nch, c.nshm, nch, nshm));
+    }
+    drop(keep);
+    Ok(())
+}
+
+pub fn plat_cases(tier: Tier) -> Vec<PlatCase> {
+    let bits = if tier.is_quick() { 3 } else { 6 };
+    let mut v = Vec::new();
+    for fake in [Some(4608usize), None] {
+        let m = match fake {
+            Some(_) => 4568usize,
+            None => 212952,
+        };
+        // just above the 2000-byte give-up threshold, around a page, around one packet, two packets
+        for len in [2001usize, 2100, 3000, 4055, 4056, 4057, 4097, m / 2, m - 1, m, m + 1, 2 * m + 7] {
+            for (nch, nshm) in [(0usize, 0usize), (1, 0), (2, 1)] {
+                for mask in 0..(1u64 << bits) {
+                    v.push(PlatCase { mask, len, nch, nshm, fake_sndbuf: fake });
+                }
+            }
+        }
+    }
+    v
+}
+
 pub fn cfg_of(c: &Case) -> Cfg {
     Cfg { sched: true, trace: true, fake_sndbuf: c.fake_sndbuf, enobufs_mask: c.mask, ..Default::default() }
 }
@@ -280,11 +348,32 @@ pub fn run(tier: Tier, _part: bool) -> i32 {
         rep.fail(&format!("{} :: {:?}", e, c), json!({"many": c}));
     }
     rep.set("many_attachment_cases", json!(mcs.len()));
+    let pcs = plat_cases(tier);
+    let mut pfails = Vec::new();
+    sweep(&pcs, 120.0, &|c: &PlatCase| Cfg { sched: true, fake_sndbuf: c.fake_sndbuf, enobufs_mask: c.mask, ..Default::default() }, &plat_body, &mut |_, c, out| {
+        n += 1;
+        match super::describe(out) {
+            Ok(o) => {
+                if o.contains("send=ok") {
+                    n_ok += 1;
+                } else {
+                    n_err += 1;
+                }
+                outcomes.insert(format!("plat/{}/{}/{}/{:?}/{}", c.len, c.nch, c.nshm, c.fake_sndbuf, o));
+            },
+            Err(e) if e.starts_with("MACHINERY") => rep.machinery(e),
+            Err(e) => pfails.push((c.clone(), e)),
+        }
+    });
+    for (c, e) in pfails {
+        rep.fail(&format!("{} :: {:?}", e, c), json!({"plat": c}));
+    }
+    rep.set("platform_level_cases", json!(pcs.len()));
     rep.set("evaluations", json!(n));
     rep.set("distinct_nontrivial", json!(outcomes.len()));
     rep.set("sends_accepted", json!(n_ok));
     rep.set("sends_refused", json!(n_err));
-    rep.set("rule", json!(format!("case = (ENOBUFS bitmask over the first {} transmission attempts of one send, shape in {{<=2000 B, one packet >2000 B, 2, 3, 6 packets}}, with/without sender+region attached, effective buffer 4608 / system default); all {} masks enumerated; plus the first 8 (32) masks on one-packet and two-packet messages carrying 62, 63 or 64 attachments (all senders, one region, all regions); distinct_nontrivial = distinct (shape, attachments, buffer, send result, number of attempts) outcomes observed", if tier.is_quick() { 7 } else { 12 }, if tier.is_quick() { 128 } else { 4096 })));
+    rep.set("rule", json!(format!("case = (ENOBUFS bitmask over the first {} transmission attempts of one send, shape in {{<=2000 B, one packet >2000 B, 2, 3, 6 packets}}, with/without sender+region attached, effective buffer 4608 / system default); all {} masks enumerated; plus the first 8 (32) masks on one-packet and two-packet messages carrying 62, 63 or 64 attachments (all senders, one region, all regions); plus platform-level sends (exact attachment lists visible) of 12 lengths from 2001 bytes to two packets x {{0, 1, 3}} attachments x the first 8 (64) masks; distinct_nontrivial = distinct (shape, attachments, buffer, send result, number of attempts) outcomes observed", if tier.is_quick() { 7 } else { 12 }, if tier.is_quick() { 128 } else { 4096 })));
     rep.set("exhaustive", json!(true));
     rep.sample(serde_json::to_value(&cs[cs.len() / 3]).unwrap());
     rep.sample(serde_json::to_value(&cs[cs.len() - 5]).unwrap());
@@ -294,6 +383,14 @@ pub fn run(tier: Tier, _part: bool) -> i32 {
 }
 
 pub fn replay(v: &Value) -> i32 {
+    if v.get("plat").is_some() {
+        let Ok(c) = serde_json::from_value::<PlatCase>(v["plat"].clone()) else { return 2 };
+        for r in 0..2 {
+            let out = crate::exec::run_one(&Cfg { sched: true, fake_sndbuf: c.fake_sndbuf, enobufs_mask: c.mask, ..Default::default() }, 120.0, &|| plat_body(&c));
+            println!("replay round {}: {:?} -> {:?}", r, c, super::describe(&out));
+        }
+        return 0;
+    }
     if v.get("many").is_some() {
         let Ok(c) = serde_json::from_value::<ManyCase>(v["many"].clone()) else { return 2 };
         for r in 0..2 {
